@@ -22,6 +22,7 @@ import (
 	"sync"
 
 	"github.com/olive-io/bpmn/schema"
+	"github.com/olive-io/bpmn/v2/internal/verifhook"
 	"github.com/olive-io/bpmn/v2/pkg/data"
 	"github.com/olive-io/bpmn/v2/pkg/event"
 	"github.com/olive-io/bpmn/v2/pkg/tracing"
@@ -107,6 +108,7 @@ func (ps *ProcessSet) StartAll(ctx context.Context) error {
 		}
 
 		ps.wg.Add(1)
+		verifhook.Point("processset.startall.after_process_start")
 		go ps.tracerProcess(ctx, process, &ps.wg)
 	}
 
@@ -177,6 +179,7 @@ func (ps *ProcessSet) run(ctx context.Context) {
 func (ps *ProcessSet) tracerProcess(ctx context.Context, process *Process, wg *sync.WaitGroup) {
 	defer wg.Done()
 
+	verifhook.Point("processset.watcher.before_subscribe")
 	traces := process.Tracer().Subscribe()
 	defer process.tracer.Unsubscribe(traces)
 
